@@ -314,6 +314,9 @@ func (f *file) writeBlobAt(op string, p blob.Blob, off int64) (n int, err error)
 	if f.fileData == nil {
 		return 0, hackpadfs.ErrClosed
 	}
+	if p.Len() == 0 && off >= 0 {
+		return 0, nil
+	}
 	if f.flag&hackpadfs.FlagAppend != 0 {
 		off = int64(f.Size())
 	}
